@@ -12,7 +12,59 @@ T.time = lambda: Pins.now + Pins.frac          # builders embed int(time()) + ti
 from tapescript import AMHL as _AM
 _AM.token_bytes = tsh._token_bytes
 
-Script = T.Script
+import inspect as _inspect
+_RealT = T
+
+
+class _ToolsProxy:
+    """tapescript.tools seen through the argument forms its signatures allow: a parameter annotated bytes|VerifyKey
+    (bytes|SigningKey) randomly receives the PyNaCl object instead of the 32 bytes.  The builders must not care."""
+    _rng = random.Random(99)
+    _sigs = {}
+
+    def __getattr__(self, name):
+        obj = getattr(_RealT, name)
+        if not callable(obj) or _inspect.isclass(obj) or not name.startswith(('make_', 'setup_amhl', 'decrypt_')):
+            return obj
+        if name not in self._sigs:
+            try:
+                self._sigs[name] = _inspect.signature(obj)
+            except (TypeError, ValueError):
+                self._sigs[name] = None
+        sig = self._sigs[name]
+        if sig is None:
+            return obj
+        rng = self._rng
+
+        def conv(pname, val):
+            ann = str(sig.parameters[pname].annotation) if pname in sig.parameters else ''
+            if type(val) is bytes and len(val) == 32 and rng.random() < 0.3:
+                if 'VerifyKey' in ann:
+                    return tsh.VerifyKey(val)
+                if 'SigningKey' in ann:
+                    return SigningKey(val)
+            return val
+
+        def call(*a, **kw):
+            try:
+                b = sig.bind(*a, **kw)
+            except TypeError:
+                return obj(*a, **kw)
+            for k in list(b.arguments):
+                v = b.arguments[k]
+                if type(v) in (list, tuple) and 'VerifyKey' in str(sig.parameters[k].annotation):
+                    b.arguments[k] = type(v)(conv(k, x) for x in v)
+                else:
+                    b.arguments[k] = conv(k, v)
+            return obj(*b.args, **b.kwargs)
+        return call
+
+    def __setattr__(self, name, value):
+        setattr(_RealT, name, value)
+
+
+T = _ToolsProxy()
+Script = _RealT.Script
 SEEDS = [bytes([i]) * 32 for i in range(1, 9)]
 PUBS = [bytes(SigningKey(s).verify_key) for s in SEEDS]
 
@@ -91,6 +143,13 @@ def c13(rng):
     out.append(('scripthash:honest', [bs(T.make_scripthash_witness(script)), bs(lock)], {}, cfg,
                 F.run_auth_scripts([script.bytes])))
     out.append(('scripthash:other-script', [bs(T.make_scripthash_witness(Script.from_src('true dup verify'))), bs(lock)], {}, cfg, False))
+    # a key listed twice (a weighted vote): one holder still counts once per signature it can really give
+    c_ = next(i for i in range(len(SEEDS)) if i not in (a, b))
+    lkr = T.make_multisig_lock([PUBS[a], PUBS[a], PUBS[b]], 2, alh)
+    wa = bs(T.make_single_sig_witness(SEEDS[a], sf, flh)); wb = bs(T.make_single_sig_witness(SEEDS[b], sf, flh))
+    out.append(('multisig[A,A,B] 2-of-3: A twice (the same signature)', [wa + wa, bs(lkr)], sf, cfg, False))
+    out.append(('multisig[A,A,B] 2-of-3: A and B', [wa + wb, bs(lkr)], sf, cfg, True))
+    out.append(('multisig[A,A,B] 2-of-3: B and an outsider', [wb + bs(T.make_single_sig_witness(SEEDS[c_], sf, flh)), bs(lkr)], sf, cfg, False))
     # graftroot
     lock = T.make_graftroot_lock(PUBS[a], alh)
     out.append(('graftroot:keyspend', [bs(T.make_graftroot_witness_keyspend(SEEDS[a], sf, flh)), bs(lock)], sf, cfg, True))
@@ -275,6 +334,19 @@ def c16(rng):
     return out
 
 
+def _u16(n): return n.to_bytes(2, 'big')
+_OPB = lambda n: bytes([tsh.F.opcodes_inverse['OP_' + n][0]])
+# the same instruction at some depth: the slack thresholds of the run apply there as at top level
+_C16_CTX = [
+    ('if', lambda b: b'\x01' + _OPB('IF') + _u16(len(b)) + b),
+    ('if_else/if', lambda b: b'\x01' + _OPB('IF_ELSE') + _u16(len(b)) + b + _u16(0)),
+    ('if_else/else', lambda b: b'\x00' + _OPB('IF_ELSE') + _u16(0) + _u16(len(b)) + b),
+    ('def/call', lambda b: _OPB('DEF') + b'\x05' + _u16(len(b)) + b + _OPB('CALL') + b'\x05'),
+    ('eval', lambda b: (bytes([3, len(b)]) + b if len(b) > 1 else bytes([2]) + b) + _OPB('EVAL')),
+    ('if_else/else/if', lambda b: b'\x00' + _OPB('IF_ELSE') + _u16(0) + _u16(len(b) + 4) + (b'\x01' + _OPB('IF') + _u16(len(b)) + b)),
+]
+
+
 def c16_instr(rng):
     """instruction level: (label, script, cache, cfg, expected top-of-stack bool or 'raise')"""
     out = []
@@ -291,7 +363,8 @@ def c16_instr(rng):
                     exp = (t >= c) and (thr <= 0 or t - now < thr)
                     for opn, ver in (('CHECK_TIMESTAMP', False), ('CHECK_TIMESTAMP_VERIFY', True)):
                         script = bytes([3, len(enc)]) + enc + bytes([tsh.F.opcodes_inverse['OP_' + opn][0]])
-                        out.append(('%s c=now%+d(%dB) t=now%+d thr=%d' % (opn, dc, len(enc), dt, thr), script,
+                        ctx = rng.choice(_C16_CTX) if rng.random() < 0.35 else ('top', lambda b: b)
+                        out.append(('%s c=now%+d(%dB) t=now%+d thr=%d in %s' % (opn, dc, len(enc), dt, thr, ctx[0]), ctx[1](script),
                                     {'timestamp': t}, cfg, ('raise' if not exp else 'empty') if ver else exp))
                 if dc == -3 and thr in (60, 0):
                     for c0 in (0, 1, 2):
